@@ -154,6 +154,35 @@ func init() {
 		}
 		fmt.Fprintf(out, "def persistChecksAllIndexes : Bool := %v\n", allIdx)
 
+		// Meta.LayeredOnto: `ti.lastMod = <x>.info.Clock` — x must be the parameter (the latest
+		// state), not the receiver (the transaction's older snapshot): lastMod must not go backwards
+		mm := parseGo(filepath.Join(repo, "db19/meta/meta.go"))
+		lo := mm.method("Meta", "LayeredOnto")
+		recv := lo.Recv.List[0].Names[0].Name
+		param := lo.Type.Params.List[0].Names[0].Name
+		stamp := ""
+		ast.Inspect(lo.Body, func(n ast.Node) bool {
+			as, ok := n.(*ast.AssignStmt)
+			if !ok || len(as.Lhs) != 1 || len(as.Rhs) != 1 {
+				return true
+			}
+			if l, ok := as.Lhs[0].(*ast.SelectorExpr); ok && l.Sel.Name == "lastMod" {
+				// rhs: x.info.Clock
+				if r1, ok := as.Rhs[0].(*ast.SelectorExpr); ok && r1.Sel.Name == "Clock" {
+					if r2, ok := r1.X.(*ast.SelectorExpr); ok && r2.Sel.Name == "info" {
+						if id, ok := r2.X.(*ast.Ident); ok {
+							stamp = id.Name
+						}
+					}
+				}
+			}
+			return true
+		})
+		if stamp != recv && stamp != param {
+			return fmt.Errorf("LayeredOnto: `ti.lastMod = <x>.info.Clock` not found (x=%q)", stamp)
+		}
+		fmt.Fprintf(out, "def layeredOntoStampsLatestClock : Bool := %v\n", stamp == param)
+
 		// slice arithmetic of the apply steps
 		ov := parseGo(filepath.Join(repo, "db19/index/overlay.go"))
 		emitSlices(out, info, info.method("MergeUpdate", "Apply1"), "mergeApply1", "ti.Deltas", "mu.nmerged")
